@@ -13,6 +13,7 @@
 -/
 import ICal.Lemmas.Alarm
 import ICal.Lemmas.BodiesAlarm
+import ICal.Lemmas.BodiesAlarmTimes
 namespace ICal.C14
 open ICal.Alarms
 
@@ -292,11 +293,35 @@ theorem body_is_date (t : Trig) : Gen.BodiesAlarm.is_date t = t.isDate := Bodies
 
 theorem body_is_datetime (t : Trig) : Gen.BodiesAlarm.is_datetime t = !t.isDate := Bodies.is_datetime_eq t
 
-theorem body_alarms_add (dt : Trig) (td : Int) : Gen.BodiesAlarm.Alarms_add dt td toDatetime id = add dt td :=
+theorem body_alarms_add (dt : Trig) (td : Int) : Gen.BodiesAlarm.Alarms_add (dt := dt) (td := td) (to_datetime := toDatetime) (normalize_pytz := id) = add dt td :=
   Bodies.Alarms_add_eq dt td
 
 theorem body_alarms_repeat (first : Trig) (a : VAlarm) :
-    Gen.BodiesAlarm.Alarms_repeat first a.rep a.duration toDatetime id = .ok (repeatTimes first a) :=
+    Gen.BodiesAlarm.Alarms_repeat (first := first) (alarm_repeat := a.rep) (alarm_duration := a.duration) (to_datetime := toDatetime)
+      (normalize_pytz := id) = .ok (repeatTimes first a) :=
   Bodies.Alarms_repeat_eq first a
+
+/-- the regenerated `Alarms._alarm_time` is the model's `alarmTime` (the local time zone applied to a trigger without tzinfo) -/
+theorem body_alarms_alarm_time (loc : Int → Int) (s : State) (a : VAlarm) (t : Trig) :
+    Gen.BodiesAlarm.Alarms_alarm_time (alarm := a) (trigger := t) (local_tzinfo := Bodies.localTzP s) (to_datetime := toDatetime)
+      (localize := Bodies.localizeP loc) (normalize_pytz := id) (last_ack := Bodies.awareOpt s.lastAck)
+      (snooze_until := Bodies.awareOpt s.snooze) (parent := ()) (mk_alarm_time := Bodies.mkATP) = Bodies.toATup (alarmTime loc s a t) :=
+  Bodies.alarm_time_eq loc s a t
+
+/-- the regenerated `Alarms.times` (with `_get_end_alarm_times`, `_get_start_alarm_times`, `_get_absolute_alarm_times`,
+    `_alarm_time`, `_repeat`, `_add`) is the model's `times`, on every state whose lists are sorted as `add_alarm` sorts them -/
+theorem body_alarms_times (loc : Int → Int) (s : State) (h : Bodies.Sorted s) :
+    Bodies.timesP loc s = Bodies.liftA ((times loc s).map (List.map Bodies.toATup)) :=
+  Bodies.times_eq loc s h
+
+/-- every state `Alarms(component)` builds is sorted so -/
+theorem body_alarms_sorted (p : Parent) (start end_ : Option Trig) (alarms : List VAlarm) :
+    Bodies.Sorted (ofComponent p start end_ alarms) :=
+  Bodies.sorted_ofComponent p start end_ alarms
+
+/-- and the setters called afterwards keep it -/
+theorem body_alarms_sorted_setters (s : State) (h : Bodies.Sorted s) (b : Bool) (o o' : Option Int) :
+    Bodies.Sorted (snoozeUntil (acknowledgeUntil (setLocalTimezone s b) o) o') :=
+  ⟨h.abs, h.start, h.end_⟩
 
 end ICal.C14
